@@ -991,7 +991,7 @@ class Run:
         return [dict(kind="L" if kind == "L" else "LS", l=l, L=L, srcLen=s, seed=1) for l, s in over[:4]]
 
     # ---- (7) round 2: what a DCtx owns / reports, static contexts never allocate, legacy path, fromFrame, CDict by level
-    OWN_KINDS = ("DOWN", "SDCT", "SCCT", "CPD", "LEGACY", "DFF", "CDLVL", "CSZ", "OSZ", "MTI", "ADV")
+    OWN_KINDS = ("DOWN", "SDCT", "SCCT", "CPD", "LEGACY", "DFF", "CDLVL", "CSZ", "OSZ", "MTI", "ADV", "MTF", "CHIS", "CPC")
 
     def own_history_cases(self):
         rng, ctx = self.rng, self.ctx
@@ -1233,6 +1233,79 @@ class Run:
                             "ZSTD_estimateCCtxSize_usingCParams(c) = %d bytes -> memory_allocation (raw cParams need %d); ZSTD_compress2 with the same "
                             "parameters succeeds" % (h_, sl_, st_, int(e, 16), int(nd, 16)),
                             key="C14-advanced-raw-cparams-vs-estimate" if h_ > 24 + max(4, min(sl_, 6)) else None)
+        # (j) round 3: the reported size of a multithreaded CCtx whose worker-count change failed half-way (the k-th allocation of
+        #     the resizing session fails): the context is still a live object (the next session succeeds), so ZSTD_sizeof_CCtx
+        #     must answer, and with at least the bytes held
+        fl_ = [(1, 4, k, 0) for k in range(0, 14)] + [(2, 3, k, 0) for k in (1, 2, 4, 6)] + [(1, 2, k, 1) for k in (0, 2, 3, 9, 0xb, 0xd)]
+        if not ctx.quick:
+            fl_ += [(rng.choice([1, 2, 3]), rng.choice([2, 4, 6]), rng.randint(0, 24), rng.choice([0, 1])) for _ in range(40)]
+        mtf = ["MTF %x %x %x %x" % t for t in fl_]
+        for ln, a in zip(mtf, par_run(self.own, mtf, chunks=6)):
+            self.h("own:sizeof-mt-failed-resize")
+            m = re.match(r"r1=OK r2=(OK|M) allocs=[0-9a-f]+ ok/[0-9a-f]+/[0-9a-f]+ r3=OK ok/[0-9a-f]+/[0-9a-f]+ end=0 badfree=0$", a)
+            ctx.count(("mtf", ln.split()[1], ln.split()[2], ln.split()[4], "SEGV" if "SIZEOF-SEGV" in a else (m.group(1) if m else "BAD")))
+            if "SIZEOF-SEGV" in a:
+                self.report(dict(kind="sizeof-mt-failed-resize", c_case=ln, c_result=a, harness="c14_own"),
+                            "ZSTD_sizeof_CCtx crashes (NULL pool / jobs table) on a live multithreaded CCtx after a worker-count change %s -> %s whose allocation #%d "
+                            "failed (the session returned memory_allocation; the context is otherwise usable): %s" % (ln.split()[1], ln.split()[2], int(ln.split()[3], 16), a[:120]),
+                            key="C14-sizeof-cctx-after-failed-mt-resize")
+            elif not m:
+                self.report(dict(kind="sizeof-mt-failed-resize", c_case=ln, c_result=a, harness="c14_own"),
+                            "multithreaded CCtx after a failed worker-count change: under-reported size, a failing next session or bytes left behind: %s -> %s" % (ln, a[:160]))
+            else:
+                ctx.cov["traces_validated_against_impl"] += 1
+        # (k) round 3: ZSTD_copyCCtx between contexts of different allocators: the destination keeps its own
+        want = {"CPC a": r"copy=OK end=OK plain=0 taken=[1-9a-f][0-9a-f]* live=0 badfree=0$",
+                "CPC b": r"copy=OK end=OK plain=[1-9a-f][0-9a-f]* taken=0 live-after-src-freed=0 live=0 badfree=0$",
+                "CPC s": r"copy=OK end=OK plain=0 taken=[1-9a-f][0-9a-f]* live=0 badfree=0$",
+                "CPC t": r"copy=OK end=OK plain=0 taken=0 live=0 badfree=0$"}
+        cl = sorted(want)
+        for ln, a in zip(cl, self.own.run(cl)):
+            self.h("own:copycctx")
+            ctx.count(("cpc", ln, a.split()[2] if len(a.split()) > 2 else "EMPTY", a.split()[3] if len(a.split()) > 3 else ""))
+            if not re.match(want[ln], a):
+                self.report(dict(kind="copy-cctx", c_case=ln, c_result=a, harness="c14_own"),
+                            "ZSTD_copyCCtx must leave the destination its own allocator: scenario '%s' (a: custom-allocator dst <- default src, "
+                            "b: default dst <- custom src, s: custom dst <- static src, t: static dst <- custom src; plain = malloc calls that bypassed "
+                            "the counting allocator, taken = blocks taken from it, badfree = foreign blocks handed to its free) expected /%s/, got: %s"
+                            % (ln, want[ln], a[:140]), key="C14-copycctx-clobbers-custommem")
+        # (l) round 3: ownership histories on one heap CCtx (worker count up / down / 0, LDM on / off, dictionaries by copy /
+        #     by reference / prefix / external CDict, thread-pool switches, frames left open with unflushed jobs, resets,
+        #     ZSTD_compress_usingDict / _advanced, ZSTD_copyCCtx): ZSTD_sizeof_CCtx >= bytes held after every operation
+        big, mid = "90000", "30d40"
+        hc = [["W2", "C" + big, "G1", "C" + big, "D3e8/0", "C" + big, "T1", "C" + big, "T2", "C" + big, "T0", "C" + big, "W0", "C" + mid, "W3", "S100000", "Rs", "C" + mid, "Rp", "C64"],
+              ["W1", "G1", "w17", "C" + big, "w14", "C" + big, "G0", "C" + big, "P1388", "C" + mid, "K1388", "C" + mid, "k", "X" + big, "Y3", "C3e8"],
+              ["W2", "S" + big, "S" + big, "E", "W4", "S" + big, "Rs", "T1", "S" + big, "E", "U1388/3e8", "A186a0/14", "Y13", "W1", "G1", "D186a0/1", "C" + big],
+              ["V13", "C186a0", "V1", "C186a0", "Df4240/0", "C64", "Rp", "W2", "J100000", "S" + big, "S" + big, "S" + big, "E"]]
+        for _ in range(4 if ctx.quick else 60):
+            ops = ["V%s" % hx(rng.choice([1, 1, 2, 3, -5]))]
+            for _ in range(rng.randint(4, 16)):
+                k = rng.choice("WWGwJDPKkTTCCCSSSERRUAYX")
+                if k == "W": ops.append("W%x" % rng.choice([0, 1, 2, 3, 4]))
+                elif k == "G": ops.append("G%d" % rng.choice([0, 1]))
+                elif k == "w": ops.append("w%x" % rng.choice([0, 14, 17, 20]))
+                elif k == "J": ops.append("J%x" % rng.choice([0, 1 << 19, 1 << 20]))
+                elif k == "D": ops.append("D%x/%d" % (rng.choice([0, 8, 1000, 100000]), rng.choice([0, 1])))
+                elif k in "PK": ops.append("%s%x" % (k, rng.choice([8, 5000, 100000])))
+                elif k == "T": ops.append("T%d" % rng.choice([0, 1, 2]))
+                elif k in "CSX": ops.append("%s%x" % (k, rng.choice([0, 100, 200000, 0x90000, 0x90000, 0x120000])))
+                elif k == "R": ops.append(rng.choice(["Rs", "Rp"]))
+                elif k == "U": ops.append("U%x/%x" % (rng.choice([100, 200000]), rng.choice([0, 1000, 100000])))
+                elif k == "A": ops.append("A%x/%x" % (rng.choice([1000, 200000]), rng.choice([6, 14, 18])))
+                elif k == "Y": ops.append("Y%s" % hx(rng.choice([1, 3, 13])))
+                else: ops.append(k)
+            hc.append(ops)
+        hcl = ["CHIS " + " ".join(o) for o in hc]
+        for ln, a in zip(hcl, par_run(self.own, hcl, chunks=4, timeout=600)):
+            self.h("own:cctx-history")
+            ctx.count(("chis", "W" in ln, " G1" in ln, " T" in ln, " S" in ln, " Y" in ln, a.split()[-3] if len(a.split()) > 2 else "EMPTY"))
+            if not a.endswith("fine end=0 badfree=0") or "BADTOKEN" in a:
+                m = re.search(r"UNDER@(\d+):(\S+) missing=([0-9a-f]+)", a)
+                self.report(dict(kind="cctx-history", c_case=ln, c_result=a[-600:], harness="c14_own"),
+                            ("ZSTD_sizeof_CCtx under-reports a heap CCtx by %d bytes after operation #%s (%s) of the history" % (int(m.group(3), 16), m.group(1), m.group(2))) if m
+                            else "heap CCtx ownership history: crash, bytes left behind after ZSTD_freeCCtx or a foreign block freed: %s" % a[-160:])
+            else:
+                ctx.cov["traces_validated_against_impl"] += 1
         core.log("C14 round-2 ties: %d ownership histories, %d static-dict, %d legacy, %d fromFrame, %d cdict-level, %d sizeof cases; %d disagreements so far"
                  % (len(hl), len(sl), len(ll), len(dl), len(cl_), len(zl), len(self.disagreements)))
 
